@@ -108,6 +108,17 @@ type vShapePtrEmbed struct { // embedded pointer-to-struct is not looked into
 	*VScanTagged
 }
 
+// the same struct type embedded twice under one parent (through aliases): both copies are components of the shape
+type vAliasA = VScanTagged
+type vAliasB = VScanTagged
+type vShapeTwice struct {
+	nm string
+	vFrameFields
+	vAliasA
+	vAliasB
+}
+
+func (h *vShapeTwice) Naming() string       { return h.nm }
 func (h *vShapeFlat) Naming() string        { return h.nm }
 func (h *vShapeE1) Naming() string          { return h.nm }
 func (h *vShapeE2) Naming() string          { return h.nm }
@@ -169,7 +180,7 @@ type vScanResult struct {
 	l       bool
 	c       string
 	frame   vFrameFields
-	tagged  *VScanTagged // for shapes whose tagged block must stay untouched
+	second  *VScanTagged // second copy of the tagged block (shape 8)
 	taggedV VScanTagged
 }
 
@@ -211,6 +222,7 @@ func vRunShape(shape int, fr vFrameFields, init VScanTagged, cfg *vScanCfg, prov
 	nd.Assert(f.postProcessorRegistrationDelegate.InvokeBeanFactoryPostProcessors(f, nil) == nil, "processor registration ok")
 	var h any
 	var tagged func() VScanTagged
+	var second func() VScanTagged
 	var frame func() vFrameFields
 	switch shape {
 	case 0:
@@ -248,6 +260,12 @@ func vRunShape(shape int, fr vFrameFields, init VScanTagged, cfg *vScanCfg, prov
 		h = x
 		tagged = func() VScanTagged { return x.VScanTagged }
 		frame = func() vFrameFields { return x.vFrameFields }
+	case 8:
+		x := &vShapeTwice{nm: "holder", vFrameFields: fr, vAliasA: init, vAliasB: init}
+		h = x
+		tagged = func() VScanTagged { return x.vAliasA }
+		frame = func() vFrameFields { return x.vFrameFields }
+		second = func() VScanTagged { return x.vAliasB }
 	default:
 		in := init
 		x := &vShapePtrEmbed{nm: "holder", vFrameFields: fr, VScanTagged: &in}
@@ -284,11 +302,18 @@ func vRunShape(shape int, fr vFrameFields, init VScanTagged, cfg *vScanCfg, prov
 	res.taggedV = t
 	res.w, res.v, res.p, res.x, res.l, res.c = t.W, t.V, t.P, t.X, t.L != nil, t.C
 	res.frame = frame()
+	if second != nil {
+		t2 := second()
+		res.second = &t2
+	}
 	return res
 }
 
 func VerifC11() {
-	shape := 1 + nd.Choose(nd.Param("SHAPES", 7))
+	shape := 1 + nd.Choose(nd.Param("SHAPES", 8))
+	if shape == 7 {
+		shape = 9 // embedded pointer
+	}
 	// symbolic initial contents of every frame field and of the tagged string fields
 	fr := vFrameFields{u: int(nd.Int64()), N: int(nd.Int64()), J: nd.Bytes(1), s: nd.Bytes(1)}
 	init := VScanTagged{V: nd.Bytes(1), P: nd.Bytes(1), X: nd.Bytes(1), C: nd.Bytes(1)}
@@ -306,6 +331,18 @@ func VerifC11() {
 	}
 	nd.Assert(got.ok, "C11: the embedded shape starts")
 	switch {
+	case shape == 8:
+		nd.Cover("same type embedded twice")
+		nd.Assert(len(got.props) == 2*len(flat.props), "C11: both embedded copies of a struct type are scanned")
+		if len(got.props) == 2*len(flat.props) {
+			for i := range flat.props {
+				nd.Assert(got.props[2*i] == flat.props[i] && got.props[2*i+1] == flat.props[i], "C11: tag, value and arguments of a property do not depend on the embedding")
+			}
+		}
+		for _, t := range []VScanTagged{got.taggedV, *got.second} {
+			nd.Assert(t.W == any(provB) && t.V == cfg.k && t.P == cfg.k2 && t.X == cfg.k3 && t.L != nil && t.C == init.C, "C11: every recognised tag inside embedded structs is processed as on the flat shape")
+		}
+		nd.Assert(len(got.custom) == 2 && got.custom[0] == flat.custom[0] && got.custom[1] == flat.custom[0], "C11: the custom tag processor receives exactly the fields carrying its tag, with value and arguments")
 	case shape <= 5:
 		nd.Cover("see-through embedding")
 		// processed identically to the flat twin
